@@ -1,10 +1,242 @@
-(* Props/C10.v — Duration arithmetic agrees with timedelta arithmetic. (statements only) *)
+(* Props/C10.v — Duration arithmetic agrees with timedelta arithmetic.
+   Only theorem statements; every proof is `exact <lemma>` (Proofs/C10Facts.v).
+   Model: Model/DurationOps.v assembled from the TRANSLATED Gen/DurationOps.v (py_divide_and_round, py_Duration_to_microseconds, the integer
+   constructor arguments of every operator branch, py_return_table) and hand-modelled SpecFloat parts; equal to /repo's duration.py / interval.py
+   on every run by correspondence (both backends).  Notation: d_N = native timedelta value in microseconds; YM y m = 365 y + 30 m days;
+   exact0 d : the stored (_days, _seconds, _microseconds) hold exactly d_N d (what Duration.__new__ gives without years / months while its
+   float normalisation is exact: C09, |N| < 2^33 s);  exact_ym d : they hold d_N d minus the year / month days.
+   same_length r t : Duration result r against the plain-timedelta result t of timedelta's own operator (td_binop) on the native values.
+   Float premises addsub_float_exact / mul_float_exact (below 2^31 s) and C09's float_split_exact_on_D9 are NOT proved: explicit arguments of *_partial. *)
 From Coq Require Import ZArith List Bool.
 From Coq Require Import Floats.SpecFloat.
-From PV Require Import Lib.PyBase Spec.TdFloat Gen.Constants Model.Duration Gen.DurationOps Model.DurationOps Proofs.C10Facts.
+From PV Require Import Lib.PyBase Spec.TdFloat Gen.Constants Model.Duration Gen.DurationOps Model.DurationOps Proofs.C09Facts Proofs.C10Facts.
 Import ListNotations.
 Open Scope Z_scope.
 
+(* ---- the translated helpers *)
+(* _divide_and_round(a, b) is THE integer nearest to a / b, ties to the even one — all integers a, all b <> 0, stated without division:
+   nearest_even a b q  :=  2 |a - q b| <= |b|  /\  (2 |a - q b| = |b|  ->  q mod 2 = 0) *)
 Theorem divide_and_round_spec : forall a b q, b <> 0 -> (py_divide_and_round a b = q <-> nearest_even a b q).
 Proof. exact divide_and_round_characterised. Qed.
 Print Assumptions divide_and_round_spec.
+
+(* _to_microseconds() of what the constructor stores (integer skeleton of C09) is the native length minus the year / month days *)
+Theorem to_microseconds_spec : forall N total y mo sig, exact_ym (exact_dur N total y mo sig).
+Proof. exact to_microseconds_exact_dur. Qed.
+Print Assumptions to_microseconds_spec.
+
+Theorem to_microseconds_constructed_partial : float_split_exact_on_D9 ->
+  forall d s us ms mi h w y mo r,
+  duration_new d s us ms mi h w y mo = Ok r -> D9 (d_N r) (YM y mo * 86400) -> exact_ym r.
+Proof. exact to_microseconds_constructed. Qed.
+Print Assumptions to_microseconds_constructed_partial.
+
+(* float.as_integer_ratio(): x = a / b exactly *)
+Theorem as_integer_ratio_spec : forall s m e a b, py_as_integer_ratio (S754_finite s m e) = Ok (a, b) ->
+  0 < b /\ (0 <= e -> a = cond_neg s (Zpos m * 2 ^ e) /\ b = 1) /\ (e < 0 -> a * 2 ^ (- e) = cond_neg s (Zpos m) * b).
+Proof. exact as_integer_ratio_exact. Qed.
+Print Assumptions as_integer_ratio_spec.
+
+(* ---- negation and integer scaling act component-wise on years and months; negation negates the length *)
+Theorem neg_componentwise : forall d r, dur_neg d = Ok r ->
+  d_years r = - d_years d /\ d_months r = - d_months d
+  /\ d_N r = - (((d_weeks d * 7 + d_rdays d) * 86400 + d_seconds d) * 1000000 + d_micro d + YM (d_years d) (d_months d) * DAYUS)
+  /\ (exact_ym d -> d_N r = - d_N d).
+Proof. exact neg_spec. Qed.
+Print Assumptions neg_componentwise.
+
+Theorem mul_int_spec : forall d k r, dur_mul d (VInt k) = Ok (RDur r) ->
+  d_years r = d_years d * k /\ d_months r = d_months d * k
+  /\ exists n0, d_N r = n0 + YM (d_years d * k) (d_months d * k) * DAYUS.
+Proof. exact mul_int_years_months. Qed.
+Print Assumptions mul_int_spec.
+
+(* ---- division by an int / scaling by a float: exact integer arithmetic on _to_microseconds() *)
+Theorem floordiv_int_spec : forall d k r, dur_floordiv d (VInt k) = Ok (RDur r) ->
+  k <> 0 /\ d_years r = d_years d / k /\ d_months r = d_months d / k
+  /\ d_N r = py_Duration_to_microseconds d / k + YM (d_years d / k) (d_months d / k) * DAYUS.
+Proof. exact C10Facts.floordiv_int_spec. Qed.
+Print Assumptions floordiv_int_spec.
+
+Theorem floordiv_int_agrees : forall d k r, exact0 d -> d_years d = 0 -> d_months d = 0 ->
+  dur_floordiv d (VInt k) = Ok (RDur r) -> d_N r = d_N d / k /\ d_years r = 0 /\ d_months r = 0.
+Proof. exact floordiv_int_exact. Qed.
+Print Assumptions floordiv_int_agrees.
+
+Theorem truediv_int_spec : forall d k r, dur_truediv d (VInt k) = Ok (RDur r) ->
+  k <> 0 /\ d_years r = py_divide_and_round (d_years d) k /\ d_months r = py_divide_and_round (d_months d) k
+  /\ d_N r = py_divide_and_round (py_Duration_to_microseconds d) k
+             + YM (py_divide_and_round (d_years d) k) (py_divide_and_round (d_months d) k) * DAYUS.
+Proof. exact C10Facts.truediv_int_spec. Qed.
+Print Assumptions truediv_int_spec.
+
+(* timedelta / int is round-half-even of the exact quotient: so is Duration / int *)
+Theorem truediv_int_agrees : forall d k r, exact0 d -> d_years d = 0 -> d_months d = 0 ->
+  dur_truediv d (VInt k) = Ok (RDur r) -> nearest_even (d_N d) k (d_N r) /\ d_years r = 0 /\ d_months r = 0.
+Proof. exact truediv_int_exact. Qed.
+Print Assumptions truediv_int_agrees.
+
+Theorem mul_float_spec : forall d x r, dur_mul d (VFloat x) = Ok (RDur r) ->
+  exists a b, py_as_integer_ratio x = Ok (a, b)
+    /\ d_N r = py_divide_and_round (py_Duration_to_microseconds d * a) b /\ d_years r = 0 /\ d_months r = 0.
+Proof. exact C10Facts.mul_float_spec. Qed.
+Print Assumptions mul_float_spec.
+
+Theorem truediv_float_spec : forall d x r, dur_truediv d (VFloat x) = Ok (RDur r) ->
+  exists a b mo, py_as_integer_ratio x = Ok (a, b) /\ a <> 0 /\ divide_and_round_float (d_months d) x = Ok mo
+    /\ d_years r = py_divide_and_round (d_years d * b) a /\ d_months r = mo
+    /\ d_N r = py_divide_and_round (b * py_Duration_to_microseconds d) a + YM (d_years r) mo * DAYUS.
+Proof. exact C10Facts.truediv_float_spec. Qed.
+Print Assumptions truediv_float_spec.
+
+(* ---- // / % divmod by another Duration give what timedelta's own operators give on the native values *)
+Theorem div_mod_by_duration_spec : forall m d d2 r, (m = 5 \/ m = 6 \/ m = 7 \/ m = 8) -> exact0 d -> exact0 d2 ->
+  dur_method m d (VDur d2) = Ok r ->
+  d_N d2 <> 0 /\ exists t, td_binop m (d_N d) (d_N d2) = Ok t /\ same_length r t.
+Proof. exact C10Facts.div_mod_by_duration_spec. Qed.
+Print Assumptions div_mod_by_duration_spec.
+
+Theorem div_by_zero_duration_raises : forall m d d2, (m = 5 \/ m = 6 \/ m = 7 \/ m = 8) -> py_Duration_to_microseconds d2 = 0 ->
+  dur_method m d (VDur d2) = Raise E_ZeroDivisionError.
+Proof. exact div_by_zero_duration. Qed.
+Print Assumptions div_by_zero_duration_raises.
+
+(* CURRENT CODE: with a PLAIN timedelta on the right these four always raise AttributeError, so the statement
+   ("whether the other operand is a Duration or a plain timedelta") is false of the faithful model *)
+Theorem div_by_plain_timedelta_always_raises : forall m d n, (m = 5 \/ m = 6 \/ m = 7 \/ m = 8) ->
+  dur_method m d (VTd n) = Raise E_AttributeError.
+Proof. exact div_by_plain_timedelta_raises. Qed.
+Print Assumptions div_by_plain_timedelta_always_raises.
+
+Theorem div_by_timedelta_refuted :
+  ~ (forall m d n t, (m = 5 \/ m = 6 \/ m = 7 \/ m = 8) -> exact0 d -> td_binop m (d_N d) n = Ok t ->
+       exists r, dur_method m d (VTd n) = Ok r /\ same_length r t).
+Proof. exact C10Facts.div_by_timedelta_refuted. Qed.
+Print Assumptions div_by_timedelta_refuted.
+
+(* ---- + - and int scaling: through float seconds; exact below 2^31 s given the float premises *)
+Theorem add_exact_partial : addsub_float_exact -> forall d o n2 r, native_len o = Some n2 ->
+  Z.abs (d_N d) < B31 -> Z.abs n2 < B31 -> Z.abs (d_N d + n2) < B31 ->
+  dur_add d o = Ok (RDur r) -> d_N r = d_N d + n2 /\ d_years r = 0 /\ d_months r = 0.
+Proof. exact C10Facts.add_exact_partial. Qed.
+Print Assumptions add_exact_partial.
+
+Theorem sub_exact_partial : addsub_float_exact -> forall d o n2 r, native_len o = Some n2 ->
+  Z.abs (d_N d) < B31 -> Z.abs n2 < B31 -> Z.abs (d_N d - n2) < B31 ->
+  dur_sub d o = Ok (RDur r) -> d_N r = d_N d - n2 /\ d_years r = 0 /\ d_months r = 0.
+Proof. exact C10Facts.sub_exact_partial. Qed.
+Print Assumptions sub_exact_partial.
+
+Theorem mul_int_exact_partial : mul_float_exact -> forall d k r, d_years d = 0 -> d_months d = 0 -> d_total d = total_seconds (d_N d) ->
+  Z.abs (d_N d) < B31 -> Z.abs (k * d_N d) < B31 ->
+  dur_mul d (VInt k) = Ok (RDur r) -> d_N r = k * d_N d /\ d_years r = 0 /\ d_months r = 0.
+Proof. exact C10Facts.mul_int_exact_partial. Qed.
+Print Assumptions mul_int_exact_partial.
+
+(* the hypothesis d_total = total_seconds(d_N) holds for every constructed Duration without years / months *)
+Theorem total_is_total_seconds : forall d s us ms mi h w r, duration_new d s us ms mi h w 0 0 = Ok r -> d_total r = total_seconds (d_N r).
+Proof. exact dur_new_total0. Qed.
+Print Assumptions total_is_total_seconds.
+
+Theorem addsub_premise_samples :
+  Forall (fun p => td_us_of_float_seconds (fadd (total_seconds (fst p)) (total_seconds (snd p))) = Ok (fst p + snd p)
+                   /\ td_us_of_float_seconds (fsub (total_seconds (fst p)) (total_seconds (snd p))) = Ok (fst p - snd p))
+         [(1, 2); (-1, 1); (999999, 1); (100000, 200000); (1073741823999999, 1073741823999999); (-1073741823999999, 1); (86400000000, -1);
+          (2147483647999999, -2147483647999998); (1500000, -2500001); (3, 1000000000000000)].
+Proof. exact addsub_float_exact_samples. Qed.
+Print Assumptions addsub_premise_samples.
+
+(* CURRENT CODE: without the bound the claim is false — from 2^31 s the float sum / product loses a microsecond *)
+Theorem add_sub_exact_refuted : exists d1 d2 r,
+  dur_of_us (-2240990336911072) = Ok d1 /\ dur_of_us (-564728395307133) = Ok d2 /\ exact0 d1 /\ exact0 d2
+  /\ dur_add d1 (VDur d2) = Ok (RDur r) /\ d_N r <> d_N d1 + d_N d2 /\ Z.abs (d_N d1 + d_N d2) < 2 * B31.
+Proof. exact add_exact_refuted. Qed.
+Print Assumptions add_sub_exact_refuted.
+
+Theorem mul_int_exact_refuted : exists d r,
+  dur_of_us (-4433329909397) = Ok d /\ exact0 d /\ dur_mul d (VInt 617) = Ok (RDur r) /\ d_N r <> 617 * d_N d.
+Proof. exact C10Facts.mul_int_exact_refuted. Qed.
+Print Assumptions mul_int_exact_refuted.
+
+(* ---- the return-type table *)
+(* every Duration method returns what the table GENERATED from the isinstance tests of duration.py says for that operand kind *)
+Theorem return_table : forall m d o r, In m [1; 2; 4; 5; 6; 7; 8] -> dur_method m d o = Ok r ->
+  In (m, kind_of_value o, kind_of_res r) py_return_table.
+Proof. exact return_table_agrees. Qed.
+Print Assumptions return_table.
+
+Theorem attribute_error_table : forall m d o, In (m, kind_of_value o, 6) py_return_table -> dur_method m d o = Raise E_AttributeError.
+Proof. exact attribute_error_where_table_says. Qed.
+Print Assumptions attribute_error_table.
+
+(* a binary operator with a Duration / an Interval on the left returns a Duration (int, float, (int, Duration) for // / divmod by a Duration):
+   never a plain timedelta, never NotImplemented (that becomes TypeError) *)
+Theorem result_is_duration : forall m d o res, is_arith m = true -> arith_op m (VDur d) o = Ok res -> duration_kind m o res.
+Proof. exact duration_left_result. Qed.
+Print Assumptions result_is_duration.
+
+Theorem result_is_duration_interval : forall m i o res, is_arith m = true -> arith_op m (VIvl i) o = Ok res -> duration_kind m o res.
+Proof. exact interval_left_result. Qed.
+Print Assumptions result_is_duration_interval.
+
+Theorem timedelta_plus_duration_is_duration : forall n d res, arith_op 1 (VTd n) (VDur d) = Ok res -> exists r, res = RDur r.
+Proof. exact timedelta_plus_duration. Qed.
+Print Assumptions timedelta_plus_duration_is_duration.
+
+Theorem negation_is_duration : forall d res, unop 3 (VDur d) = Ok res -> exists r, res = RDur r /\ dur_neg d = Ok r.
+Proof. exact neg_is_duration. Qed.
+Print Assumptions negation_is_duration.
+
+(* not in the statement's list, and indeed plain timedeltas (of the exact length): timedelta - Duration, abs(Duration) *)
+Theorem timedelta_minus_duration_is_plain : forall n d, td_in_range (n - d_N d) = true -> arith_op 2 (VTd n) (VDur d) = Ok (RTd (n - d_N d)).
+Proof. exact timedelta_minus_duration. Qed.
+Print Assumptions timedelta_minus_duration_is_plain.
+
+Theorem abs_is_plain_exact : forall d, unop 9 (VDur d) = Ok (RTd (Z.abs (d_N d))).
+Proof. exact abs_is_plain_timedelta. Qed.
+Print Assumptions abs_is_plain_exact.
+
+(* ---- Interval delegates to as_duration() *)
+Theorem interval_delegates_to_as_duration : forall m i o, is_arith m = true ->
+  arith_op m (VIvl i) o = bind (as_duration i) (fun d => arith_op m (VDur d) o).
+Proof. exact interval_delegates_arith. Qed.
+Print Assumptions interval_delegates_to_as_duration.
+
+(* ---- == , ordering and hash are timedelta's, on the native values (years / months included) *)
+Theorem compare_agrees_with_timedelta : forall m a b, native_of a <> None -> native_of b <> None ->
+  exists x y, native_of a = Some x /\ native_of b = Some y /\ cmp_op m a b = Ok (td_compare m x y).
+Proof. exact compare_is_native. Qed.
+Print Assumptions compare_agrees_with_timedelta.
+
+Theorem eq_iff_same_length : forall d n, cmp_op 10 (VDur d) (VTd n) = Ok (RBool true) <-> d_N d = n.
+Proof. exact eq_iff_native. Qed.
+Print Assumptions eq_iff_same_length.
+
+Theorem lt_iff_shorter : forall d1 d2, cmp_op 12 (VDur d1) (VDur d2) = Ok (RBool true) <-> d_N d1 < d_N d2.
+Proof. exact lt_iff_native. Qed.
+Print Assumptions lt_iff_shorter.
+
+Theorem hash_of_equal_lengths : forall d1 d2, d_N d1 = d_N d2 -> unop 17 (VDur d1) = unop 17 (VDur d2).
+Proof. exact hash_is_native. Qed.
+Print Assumptions hash_of_equal_lengths.
+
+(* ---- satisfiability of the hypotheses / ties *)
+Theorem truediv_ties_examples : exists d5 d7 dm5 r5 r7 rm5,
+  dur_of_us 5 = Ok d5 /\ dur_of_us 7 = Ok d7 /\ dur_of_us (-5) = Ok dm5
+  /\ dur_truediv d5 (VInt 2) = Ok (RDur r5) /\ d_N r5 = 2
+  /\ dur_truediv d7 (VInt 2) = Ok (RDur r7) /\ d_N r7 = 4
+  /\ dur_truediv dm5 (VInt (-2)) = Ok (RDur rm5) /\ d_N rm5 = 2.
+Proof. exact truediv_ties. Qed.
+Print Assumptions truediv_ties_examples.
+
+Theorem neg_with_years_example : exists d r,
+  duration_new 4 (-1) 0 0 0 0 0 2 (-3) = Ok d /\ exact_ym d /\ dur_neg d = Ok r
+  /\ d_years r = -2 /\ d_months r = 3 /\ d_N r = - d_N d.
+Proof. exact neg_years_example. Qed.
+Print Assumptions neg_with_years_example.
+
+Theorem divmod_example : exists d1 d2 r,
+  duration_new 3 5 7 0 0 0 0 0 0 = Ok d1 /\ duration_new 0 0 (-3) 0 0 (-5) 0 0 0 = Ok d2 /\ exact0 d1 /\ exact0 d2
+  /\ dur_method 8 d1 (VDur d2) = Ok (RPair (-15) r) /\ d_N r = d_N d1 mod d_N d2.
+Proof. exact mod_divmod_example. Qed.
+Print Assumptions divmod_example.
